@@ -62,7 +62,8 @@ theorem make_alias_joins_classes {cx : AliasCtx} {s s' : AR} {d0 d1 : String} {n
     WF s' ∧ JInv cx s' ∧ elimCount s' = elimCount s + 1 := by
   rcases makeAlias_facts h with ⟨_, hf⟩ | ⟨_, alg, other, hf⟩
   · simp at hf
-  · exact jinv_add hw hj hf
+  · obtain ⟨h1, h2, _, h4⟩ := jinv_add hw hj (Ext.refl s) hf
+    exact ⟨h1, h2, h4⟩
 
 example : makeAlias ⟨[], [], ["x", "y"], [], [], [], true⟩ AR.empty "x" "y" true ≠ none ∧ WF AR.empty := by
   refine ⟨by decide, wf_empty⟩
@@ -80,20 +81,32 @@ example : ∃ m', detectAliases c15E true
          eqs := [.bin .sub (.sym "x") (.sym "y"), .bin .add (.sym "y") (.sym "z"), .bin .sub (.sym "z") (.const 2)] } : Model Rat)
       = .ok m' ∧ nUnknowns m' = 1 ∧ m'.eqs.length = 1 := ⟨_, rfl, by decide, by decide⟩
 
-/-- `balance_step` for a later alias detection pass (iterative simplification), partial: it keeps the
-    balance if the alias relation eliminates exactly one algebraic variable for every equation the
-    detection loop dropped.  Missing: the counting argument of `balance_step_alias` relative to a
-    non-empty `old_alias_relation` (the "already handled" filter). -/
-theorem balance_step_alias_partial {E : Engine K} {allowDer : Bool} {m m' : Model K}
-    (h : detectAliases E allowDer m = .ok m')
+/-- `balance_step` for *any* alias detection pass, in particular the later passes of
+    `iterative_simplification`: if the alias relation the pass starts from has the invariant the previous
+    pass leaves (`WF`, and `JInv`: non-canonical members are never protected variables), the equations it
+    drops and the algebraic variables it eliminates *now* — those the "already handled" test does not
+    skip — are equally many.  The counting is relative to the old relation: the base names handled before
+    are exactly the non-canonical names of the old relation, they stay non-canonical (`Ext`), and the
+    non-canonical names of a relation are as many as `elimCount` (`elim_now_count`). -/
+theorem balance_step_alias_any {E : Engine K} {allowDer : Bool} {m m' : Model K} (ho : WF m.ar)
+    (hjo : JInv ⟨names m.states, names m.ders, names m.algs, names m.inputs, names m.params, names m.consts, allowDer⟩ m.ar)
     (hnd : (names m.states ++ names m.ders ++ names m.algs ++ names m.inputs ++ names m.params ++ names m.consts).Nodup)
-    (hcount : ∀ kept ar l left,
-      aliasLoop E ⟨names m.states, names m.ders, names m.algs, names m.inputs, names m.params, names m.consts, allowDer⟩
-        0 m.eqs m.ar = .ok (kept, ar) →
-      elimAliases (K := K) m.ar ar ar.cv
-        (names m.states ++ names m.ders ++ names m.algs ++ names m.inputs ++ names m.params ++ names m.consts) = .ok (l, left) →
-      kept.length + l.length = m.eqs.length ∧ ∀ x ∈ l.map (·.1), x ∈ names m.algs) :
-    Balanced m m' := alias_balanced_of_count h hnd hcount
+    (h : detectAliases E allowDer m = .ok m') : Balanced m m' := alias_balanced ho hjo hnd h
+
+/-- second pass: `a` was eliminated as alias of `x` before (it is no longer a variable of the model);
+    now `x + s = 0` makes the former canonical variable `x` a negative alias of the state `s` (and `w` an alias of `der(s)`) -/
+def c15M2 : Model Rat :=
+  { states := [{ name := "s" }], ders := [{ name := "der(s)" }], algs := [{ name := "x", aliased := true }, { name := "w" }],
+    eqs := [.bin .add (.sym "x") (.sym "s"), .bin .sub (.sym "w") (.bin .mul (.const 2) (.sym "x")),
+            .bin .sub (.sym "der(s)") (.sym "w")],
+    ar := { al := fun k => if k = (false, "x") ∨ k = (false, "a") then some [(false, "x"), (false, "a")]
+                          else if k = (true, "x") ∨ k = (true, "a") then some [(true, "x"), (true, "a")] else none,
+            cmap := fun k => if k = (false, "x") ∨ k = (false, "a") then some ("x", false)
+                            else if k = (true, "x") ∨ k = (true, "a") then some ("x", true) else none,
+            cv := ["x"] } }
+
+example : ∃ m', detectAliases c15E true c15M2 = .ok m' ∧ names m'.algs = [] ∧ m'.eqs.length = 1 ∧ m'.ar.cv = ["s", "der(s)"] ∧
+    nUnknowns c15M2 = 3 ∧ nUnknowns m' = 1 := ⟨_, rfl, by decide, by decide, by decide, by decide, by decide⟩
 
 /-! ### self-contained -/
 
@@ -138,19 +151,17 @@ theorem closed_step_alias {I : Interp K} {E : Engine K} (hE : EngineOk I E) {all
 example : (names c15M.states ++ names c15M.ders ++ names c15M.algs ++ names c15M.inputs ++ names c15M.params ++ names c15M.consts).Nodup ∧
     c15M.ar = AR.empty := ⟨by decide, rfl⟩
 
-/-- `closed_step` for a later alias detection pass, partial: the result is self-contained if no
-    canonical variable of the alias relation is itself eliminated.  Missing: the class-structure
-    argument of `closed_step_alias` relative to a non-empty `old_alias_relation`. -/
-theorem closed_step_alias_partial {I : Interp K} {E : Engine K} (hE : EngineOk I E) {allowDer : Bool} {m m' : Model K}
-    (h : detectAliases E allowDer m = .ok m') (hc : Closed m)
+/-- `closed_step` for any alias detection pass: no canonical variable is eliminated, whatever the
+    relation the pass starts from (under its invariant). -/
+theorem closed_step_alias_any {I : Interp K} {E : Engine K} (hE : EngineOk I E) {allowDer : Bool} {m m' : Model K}
+    (ho : WF m.ar)
+    (hjo : JInv ⟨names m.states, names m.ders, names m.algs, names m.inputs, names m.params, names m.consts, allowDer⟩ m.ar)
+    (hc : Closed m)
     (hnd : (names m.states ++ names m.ders ++ names m.algs ++ names m.inputs ++ names m.params ++ names m.consts).Nodup)
-    (hkept : ∀ kept ar l left,
-      aliasLoop E ⟨names m.states, names m.ders, names m.algs, names m.inputs, names m.params, names m.consts, allowDer⟩
-        0 m.eqs m.ar = .ok (kept, ar) →
-      elimAliases (K := K) m.ar ar ar.cv
-        (names m.states ++ names m.ders ++ names m.algs ++ names m.inputs ++ names m.params ++ names m.consts) = .ok (l, left) →
-      ∀ c ∈ ar.cv, c ∉ l.map (·.1)) :
-    Closed m' := alias_closed_of_kept hE h hc hnd hkept
+    (h : detectAliases E allowDer m = .ok m') : Closed m' := alias_closed hE ho hjo hc hnd h
+
+example : Closed c15M2 ∧ ∃ m', detectAliases c15E true c15M2 = .ok m' ∧ m'.dangling = [] :=
+  ⟨by rw [← dangling_nil_iff]; decide, _, rfl, by decide⟩
 
 /-! ### one whole `_simplify_once` -/
 
@@ -160,12 +171,15 @@ def RunPre15 (E : Pass → Engine K) (o : Opts) : List Pass → Model K → Prop
   | p :: ps, m =>
     if p.enabled o then
       ((names m.algs).Nodup ∧ ClosedPre (E p) o p m ∧
-        (p = .alias → m.ar = AR.empty ∧
+        (p = .alias → WF m.ar ∧
+          JInv ⟨names m.states, names m.ders, names m.algs, names m.inputs, names m.params, names m.consts,
+                o.allowDerivativeAliases⟩ m.ar ∧
           (names m.states ++ names m.ders ++ names m.algs ++ names m.inputs ++ names m.params ++ names m.consts).Nodup)) ∧
       ∀ m', Pass.run (E p) o p m = .ok m' → RunPre15 E o ps m'
     else RunPre15 E o ps m
 
-/-- `balance_pipeline` / `closed_residual`: for every option set, a `_simplify_once` that returns leaves
+/-- `balance_pipeline` / `closed_residual`: for every option set and every iteration of the loop of
+    `simplify` (the alias relation may be non-empty), a `_simplify_once` that returns leaves
     `#unknowns - #equations` unchanged and a self-contained model self-contained (so all residual
     functions can be built) — by induction over the pass list. -/
 theorem simplify_once_square_and_closed {I : Interp K} {E : Pass → Engine K} (hE : ∀ p, EngineOk I (E p)) (o : Opts) :
@@ -185,9 +199,9 @@ theorem simplify_once_square_and_closed {I : Interp K} {E : Pass → Engine K} (
         have step : Balanced m m1 ∧ Closed m1 := by
           by_cases hp : p = .alias
           · subst hp
-            obtain ⟨hemp, hnames⟩ := hal rfl
+            obtain ⟨hwf, hji, hnames⟩ := hal rfl
             simp only [Pass.run] at h1
-            exact ⟨balance_step_alias hemp hnames h1, closed_step_alias (hE _) hemp hc hnames h1⟩
+            exact ⟨balance_step_alias_any hwf hji hnames h1, closed_step_alias_any (hE _) hwf hji hc hnames h1⟩
           · exact ⟨balance_step o p hp hnd h1, closed_step (hE p) o p hp hcp hc h1⟩
         have ih := simplify_once_square_and_closed hE o ps m1 m' (hrest m1 h1) step.2 h
         exact ⟨Balanced.trans step.1 ih.1, ih.2⟩
